@@ -85,6 +85,15 @@ def run(ctx):
             src = "set f to transform return %s end\nreplace all 'a' with f" % e
         cases.append({"src": src, "texts": ["a"]})
         meta.append(("cell", ("nested", e), t is not None))
+    for leaf in ("match", "1", "true", "index", "matchLength"):
+        for cmp_ in ("==", "!=", "<", ">", "<=", ">="):
+            for bad in ("true + 1", "'a' * 'b'", "not 1", "head 5", "true - 'x'"):
+                for src in ("set f to transform if %s %s %s then return 'x' end return 'y' end\nreplace all 'a' with f" % (leaf, cmp_, bad),
+                            "set p to pattern 'a' begin if %s %s %s then return true end return false end\nfind all p" % (leaf, cmp_, bad)):
+                    if quick and rng.random() < 0.7:
+                        continue
+                    cases.append({"src": src, "texts": ["a"]})
+                    meta.append(("cell", ("if-condition", leaf, cmp_, bad), False))
     for uop, okk in (("not", "b"), ("head", "s"), ("tail", "s")):
         for k in "snb":
             e = "%s (%s)" % (uop, EXPRS[k][0])
